@@ -59,6 +59,7 @@ import PS.Proofs.Enum.UOrderCheck
 import PS.Proofs.Enum.UProb
 import PS.Proofs.Enum.UCompleteRun
 import PS.Proofs.Enum.UPrefix
+import PS.Proofs.Enum.UBucket
 namespace PS.C03HS
 open PS PS.G PS.HS
 
@@ -620,6 +621,19 @@ theorem C03_HS_U_prefix_complete_probU (E : UHS.Env U Rat) (rank : UHS.UNT U →
     · have := (List.pairwise_cons.mp hpw).1 p h3
       exact absurd hlt (Rat.not_lt.mpr this)
 
+/-- **the unambiguous bucket search: order by non-decreasing bucket tuple** (acyclic unambiguous grammars,
+    several start symbols, every fuel, every prefix): the tuples
+    `bucket of the program from its start symbol + Bucket(size).add_prob_uniform(start weight)` of the yielded
+    programs are non-decreasing for `Bucket.__lt__`; and (prefix completeness) a member whose tuple is `<`
+    the tuple of a yielded program has been yielded -/
+theorem C03_HS_U_bucket_sorted (E : UHS.Env U UHS.Bucket) (rank : UHS.UNT U → Nat) (size : Nat)
+    (R : RHyp E rank (fun b : UHS.Bucket => b.length = size)) (fuel k : Nat) (s' : UHS.St U UHS.Bucket) (out : List Prog)
+    (b : Bool) (h : UHS.take E fuel k (UHS.St.empty E.G) [] = some (s', out, b)) :
+    out.Pairwise (fun p q => ∀ kp kq, StartKey E p kp → StartKey E q kq → E.ops.lt kq kp = false) ∧
+    (∀ p q, q ∈ out → ∀ kp kq, StartKey E p kp → StartKey E q kq → E.ops.lt kp kq = true → p ∈ out) :=
+  ⟨C03_HS_U_sorted E rank _ R fuel k s' out b h,
+   fun p q hq kp kq hkp hkq hlt => C03_HS_U_prefix_complete E rank _ R fuel k s' out b h p q hq kp kq hkp hkq hlt⟩
+
 def uRank (nt : UHS.UNT Nat) : Nat := nt.2
 
 theorem uE_rhyp : RHyp uE uRank (fun v : Rat => 0 ≤ v) :=
@@ -650,6 +664,19 @@ example : ∀ s' l1 l2 q p b, UHS.take uE 60 6 (UHS.St.empty uG) [] = some (s', 
 /-- the probabilities of the 22 programs of the example in the order of the enumeration -/
 example : (UHS.take uE 60 6 (UHS.St.empty uG) []).map (fun r => r.2.1.map (PS.U.probU (uG.toUCFG u0) uG.toTags)) =
     some [3/16, 9/64, 81/640, 27/320, 1/16, 3/64] := by decide +kernel
+
+def uEb : UHS.Env Nat UHS.Bucket := { G := uG, ops := UHS.bucketOps 3 false, filter := fun _ => true, kway := true }
+
+theorem uEb_rhyp : RHyp uEb uRank (fun b : UHS.Bucket => b.length = 3) :=
+  rhyp_bucket uEb uRank 3 rfl rfl (by decide) (by decide) (by decide) (by decide) (by decide) (by decide) (by decide)
+    (by decide) (fun _ => rfl)
+
+example : ∀ k s' out b, UHS.take uEb 60 k (UHS.St.empty uG) [] = some (s', out, b) →
+    out.Pairwise (fun p q => ∀ kp kq, StartKey uEb p kp → StartKey uEb q kq → uEb.ops.lt kq kp = false) :=
+  fun k s' out b h => (C03_HS_U_bucket_sorted uEb uRank 3 uEb_rhyp 60 k s' out b h).1
+
+example : (UHS.take uEb 60 30 (UHS.St.empty uG) []).map (fun r => (r.2.1.length, r.2.2)) = some (22, true) := by
+  decide +kernel
 end UMachine
 
 end PS.C03HS
